@@ -139,24 +139,27 @@ impl Enc<'_> {
         if !self.k.non_data_packets {
             return (false, 0);
         }
-        match self.ch.choose(&format!("extra-packet-{pos}"), 5) {
+        match self.ch.choose(&format!("extra-packet-{pos}"), 6) {
             0 => (false, 0),
-            1 => {
-                // index packet: 16-byte header + 1 entry
-                self.notes.push(format!("index packet {pos}"));
-                let len = 32usize;
+            k @ (1 | 5) => {
+                // index packet: 16-byte header + entries of 16 bytes; k = 5: index level 1, two entries
+                let (level, entries) = if k == 1 { (0u8, 1usize) } else { (1u8, 2usize) };
+                self.notes.push(format!("index packet (level {level}, {entries} entries) {pos}"));
+                let len = 16 + 16 * entries;
                 self.log.push(0);
                 self.log.push(0);
                 self.log.extend_from_slice(&le16(len - 1));
-                self.log.extend_from_slice(&le16(1)); // entry count
-                self.log.push(0); // index level
+                self.log.extend_from_slice(&le16(entries)); // entry count
+                self.log.push(level); // index level
                 self.log.extend_from_slice(&[0u8; 9]);
-                self.log.extend_from_slice(&0u64.to_le_bytes());
-                self.log.extend_from_slice(&0u64.to_le_bytes());
+                for e in 0..entries {
+                    self.log.extend_from_slice(&(e as u64).to_le_bytes());
+                    self.log.extend_from_slice(&0u64.to_le_bytes());
+                }
                 (true, len)
             }
             k => {
-                let len = [0, 0, 4, 8, 64][k];
+                let len = [0, 0, 4, 8, 64, 0][k];
                 self.notes.push(format!("ignored packet of {len} bytes {pos}"));
                 self.log.push(2);
                 self.log.push(0);
